@@ -174,7 +174,20 @@ fn degenerate(rng: &mut Rng) -> (Problem, &'static str) {
 }
 
 fn check_run(ctx: &mut Ctx, wl: &str, case: u64, p: &Problem, st: &clarabel::solver::DefaultSettings<f64>, tag: &str) {
-    let (r, ev, _cones) = problem::run_traced(p, st);
+    // every fifth run prints its progress (into an in-memory buffer): the printing code sits inside the main
+    // loop and formats whatever magnitudes the iterates reach
+    let loud = case % 5 == 2;
+    let (r, ev, _cones) = if loud {
+        let mut stv = st.clone();
+        stv.verbose = true;
+        ctx.bump("runs_with_verbose_output_to_buffer");
+        problem::run_traced_with(p, &stv, |s| {
+            use clarabel::io::ConfigurablePrintTarget;
+            s.print_to_buffer()
+        })
+    } else {
+        problem::run_traced(p, st)
+    };
     ctx.eval(1);
     let iters: Vec<&IterEvent> = ev.iter().filter(|e| e.kind == clarabel::verif::IterEventKind::Iterate).collect();
     match r {
